@@ -194,6 +194,7 @@ pub fn handle_sheet(case: &JsonValue) -> JsonValue {
         }
         Err(_) => {
             o["status"] = "panic".into();
+            o["panic"] = crate::hcommon::last_panic().into();
         }
     }
     o
